@@ -616,6 +616,49 @@ def expected_slack(alg) -> dict:
     raise ValueError(f"{cname} makes no geometry calls")
 
 
+_ustar_cache: dict = {}
+
+
+def independent_u_star(W) -> np.ndarray:
+    """u* = z/‖z‖ for the least-norm z with W z ≥ 1 (the definition `VOGP.compute_u_star` implements), computed
+    WITHOUT any vopy code: exact active-set enumeration (z = W_Aᵀλ, W_A W_Aᵀ λ = 1, λ ≥ 0, W z ≥ 1 — the KKT
+    system of the strictly convex QP, so the feasible candidate of least norm is the optimum)."""
+    import itertools
+
+    Wn = np.asarray(W, dtype=float)
+    key = Wn.tobytes() + bytes(Wn.shape)
+    if key not in _ustar_cache:
+        N, m = Wn.shape
+        best = None
+        for k in range(1, min(N, m) + 1):
+            for A in itertools.combinations(range(N), k):
+                WA = Wn[list(A)]
+                G = WA @ WA.T
+                if abs(np.linalg.det(G)) < 1e-12:
+                    continue
+                lam = np.linalg.solve(G, np.ones(k))
+                if np.any(lam < -1e-10):
+                    continue
+                z = WA.T @ lam
+                if np.all(Wn @ z >= 1 - 1e-9) and (best is None or z @ z < best @ best - 1e-12):
+                    best = z
+        if best is None:
+            raise ValueError("cone has no least-norm point with W z ≥ 1 (empty interior?)")
+        _ustar_cache[key] = best / np.linalg.norm(best)
+    return _ustar_cache[key].copy()
+
+
+def true_slack(alg) -> dict:
+    """The slack the PROPERTY names, from sources independent of the algorithm object where one exists:
+    VOGP / VOGP_AD: ε · (independently computed u*); otherwise as `expected_slack`."""
+    name = getattr(alg, "verif_name", type(alg).__name__)
+    cname = ALGORITHMS[name][0] if name in ALGORITHMS else name
+    if cname in ("VOGP", "VOGP_AD"):
+        u = independent_u_star(alg.order.ordering_cone.W)
+        return {"dom": u * alg.epsilon, "cov": u * alg.epsilon}
+    return expected_slack(alg)
+
+
 def slack_matches(got, expected) -> bool:
     """Exact comparison of a slack argument with the expected one (shape-insensitive for scalars)."""
     try:
@@ -643,9 +686,10 @@ class TableOracle:
     """
 
     def __init__(self, index: RegionIndex, dom=None, cov=None, pess=None, slack=None, order=None,
-                 wrong_slack_flips: bool = True):
+                 wrong_slack_flips: bool = True, approx=None):
         self.index, self.dom, self.cov, self.pess = index, dom, cov, pess
         self.slack = slack or {}
+        self.approx = approx or {}  # optional: independently computed slack, compared with rtol 1e-5
         self.order = order
         self.flip = wrong_slack_flips
         self.calls, self.problems = [], []
@@ -664,7 +708,16 @@ class TableOracle:
         ok = True
         if has_slack and kind in self.slack:
             ok = slack_matches(slack, self.slack[kind])
-            if not ok:
+            if ok and kind in self.approx:
+                try:
+                    g, e = np.asarray(slack, dtype=float).reshape(-1), np.asarray(self.approx[kind], dtype=float).reshape(-1)
+                    ok = g.shape == e.shape and bool(np.allclose(g, e, rtol=1e-5, atol=1e-7 * max(1.0, float(np.max(np.abs(e))))))
+                except Exception:
+                    ok = False
+                if not ok:
+                    self.problems.append(f"{kind}({i},{j}): slack {np.asarray(slack).tolist()!r} is not the independently "
+                                         f"computed {np.asarray(self.approx[kind]).tolist()!r}")
+            elif not ok:
                 self.problems.append(f"{kind}({i},{j}): slack {np.asarray(slack).tolist()!r} is not the expected "
                                      f"{np.asarray(self.slack[kind]).tolist()!r}")
         self.calls.append((kind, i, j, ok))
